@@ -552,7 +552,8 @@ def _i1(ctx, kinds):
                 # external nondeterminism that the single-threaded reference does not have
                 if sem.has(lb, 'trylocked', 'None'):
                     continue
-                if sem.has(lb, 'late', 'T') and op[0] == 'recv' and want in ('registered', 'err:SendClosed'):
+                if (sem.has(lb, 'late', 'T') or sem.has(lb, 'late_ge', 'T') or sem.has(lb, 'before_deadline', 'F') or sem.has(lb, 'before_deadline_le', 'F')) \
+                        and op[0] == 'recv' and want in ('registered', 'err:SendClosed'):
                     continue  # a timed receive with nothing available may report Timeout instead of waiting
                 npairs += 1
                 kind = path_kind(ctx, b, p, evs, op)
